@@ -1,10 +1,12 @@
 -- GENERATED: axiom audit of the property theorems of C24
 import SquidModel.Properties.C24
 #print axioms SquidModel.C24.oneShot_obs
+#print axioms SquidModel.C24.no_commit_between_extensions
+#print axioms SquidModel.C24.agree_with_unsegmented
+#print axioms SquidModel.C24.segmentation_independence
 #print axioms SquidModel.C24.decode_exact
 #print axioms SquidModel.C24.decode_exact_all_consumed
 #print axioms SquidModel.C24.truncated_needs_more
-#print axioms SquidModel.C24.segmentation_independence_partial
 #print axioms SquidModel.C24.reject_in_every_segmentation
 #print axioms SquidModel.C24.reject_0x
 #print axioms SquidModel.C24.reject_nonhex
@@ -12,4 +14,5 @@ import SquidModel.Properties.C24
 #print axioms SquidModel.C24.accepted_size_fits
 #print axioms SquidModel.C24.reject_missing_crlf
 #print axioms SquidModel.C24.reject_bad_ext_name
-#print axioms SquidModel.C24.segmentation_independence_counterexample
+#print axioms SquidModel.C24.witness_rejected
+#print axioms SquidModel.C24.prefix_variant_counterexample
